@@ -153,4 +153,24 @@ KnownFxp(Active, E, RES, P) ==
     /\ E.res[1].v = KPowFx(KA1(E).v, KA2(E).v, 2 ^ RES, P)
     /\ E.res[1].v # KPowExact(KA1(E).v, KA2(E).v, 2 ^ RES)
     /\ Note("C14-fxp-pow-mod-p", <<KA1(E).v, KA2(E).v>>)
+
+(* ----------------------------------------------------------------------- *)
+(* C18-systemexit-bypass: `raise SystemExit(n)` and the builtin exit(n) with n # 0 do not go through the    *)
+(* interposed sys.exit and SystemExit never reaches sys.excepthook, so the exit hook sees a clean run and    *)
+(* produces the proof artefacts although the process exits with a failure status.                          *)
+KnownExitProves(Active, O) ==
+    /\ IsActive(Active, "C18-systemexit-bypass")
+    /\ O.mode \in {"raiseSE1", "builtinexit1"} /\ O.autoprove /\ O.status = 1
+    /\ Note("C18-systemexit-bypass", <<O.mode, O.backend>>)
+
+(* ----------------------------------------------------------------------- *)
+(* C19-specific-backend-reported-as-generic: importing backendbellman / backendbulletproofs / backendgg     *)
+(* before the runtime also imports their generic base module, which comes first in the registry, so the     *)
+(* selection reports the generic name (zkinterface / libsnark) while the specific field / proof system is   *)
+(* in effect.  shadowed = Select!SpecificShadowed for this configuration, pred = the mechanism's outcome.  *)
+KnownSelect(Active, shadowed, O, pred) ==
+    /\ IsActive(Active, "C19-specific-backend-reported-as-generic")
+    /\ shadowed /\ ~O.raised
+    /\ O.name = pred.name /\ O.mod = pred.mod /\ O.field = pred.field /\ O.groth = pred.groth
+    /\ Note("C19-specific-backend-reported-as-generic", <<O.name, O.field>>)
 =============================================================================
